@@ -112,7 +112,7 @@ fn any_str3(store: &mut [u8; 3]) -> &str {
 
 #[kani::proof]
 #[kani::unwind(8)]
-//@ tier=thorough class=core cap=1800 bounds="every String of 0..=3 UTF-8 bytes"
+//@ tier=thorough class=best cap=2400 bounds="every String of 0..=3 UTF-8 bytes"
 fn c17_string() {
     let mut store = [0u8; 3];
     let s = any_str3(&mut store);
@@ -122,7 +122,7 @@ fn c17_string() {
 
 #[kani::proof]
 #[kani::unwind(6)]
-//@ tier=quick class=core cap=900 bounds="every ASCII char" family=char
+//@ tier=thorough class=best cap=2400 bounds="every ASCII char (serde_json String values on the heap: did not finish in 15 min)" family=char
 fn c17_char_ascii() {
     let v: char = kani::any();
     kani::assume((v as u32) < 0x80);
